@@ -98,11 +98,18 @@ class Platform:
         if not is_system_include:
             local_paths += [this_path]
 
-        # Determine the path to the include file, if it exists
-        for path in local_paths + self._include_paths:
-            test_path = os.path.abspath(os.path.join(path, filename))
+        # An absolute name is opened as it is, whatever the form.
+        search_paths = local_paths + self._include_paths
+        if os.path.isabs(filename):
+            search_paths = [""]
+
+        # Determine the path to the include file, if it exists. The path is
+        # tested as it is spelled, so that the file system resolves "..":
+        # a directory that does not exist leads nowhere.
+        for path in search_paths:
+            test_path = os.path.join(path, filename)
             if os.path.isfile(test_path):
-                include_file = test_path
+                include_file = os.path.realpath(test_path)
                 self.found_incl[key] = include_file
                 return include_file
 
